@@ -822,7 +822,9 @@ class Job:
                 if fn in (self.FN_STATE_POINT, self.FN_DOCUMENT):
                     continue
                 path = os.path.join(self.path, fn)
-                if os.path.isfile(path):
+                if os.path.islink(path) or os.path.isfile(path):
+                    # A symbolic link is removed, never followed (rmtree refuses
+                    # a link to a directory, and its target is not job data).
                     os.remove(path)
                 elif os.path.isdir(path):
                     shutil.rmtree(path)
